@@ -738,7 +738,10 @@ def check_decomp(chk, d, rng, malformed, record=True):
     pairs, seen = [], set()
     desc = describe(d)
     for route, v, res in obs:
-        lit = (view_lit(v), out_lit(v, res))
+        vl = view_lit(v)
+        if d["kind"] == "ttm" and route[0] == "einsum" and not malformed:
+            vl = f"(VEin {vl})"   # the einsum TT-matrix route has its own model (Model/Factorized.v ttm_to_tensor_einsum)
+        lit = (vl, out_lit(v, res))
         if lit not in seen:
             seen.add(lit); pairs.append(lit)
         msg = None
@@ -832,7 +835,7 @@ def run(chk):
     chk.assumptions = ["integer-valued factors with |entries| <= 4, so every float64 partial sum is exact (no rounding gap between model and code)",
                        "the to_tensor routes are modelled for 2-D CP/Tucker factors, 3-D TT/TR cores, 4-D TT-matrix cores; other ndims only through the validators",
                        "NumPy reshape/moveaxis/transpose behave as modelled in Base/Tensor.v (validated by C01's primitive cases)"]
-    chk.trusted += ["einsum backend is compared against the same model as the core backend (the model follows the core backend's composition)",
+    chk.trusted += ["einsum backend: the TT-matrix route is modelled separately (np.einsum sum-of-products semantics) and proved equal to the core route on well-formed input; for the other families the einsum backend only changes tenalg functions (C02) and is compared against the same model as the core backend",
                     "PARAFAC2 orthonormality threshold 1e-5 is modelled exactly (P^T P = I) which coincides on integer-valued projections"]
     _orig_load = C.load_known
 
